@@ -31,18 +31,18 @@ import (
 type sKind int
 
 const (
-	sUint   sKind = iota // unsigned integer field
-	sInt                 // signed integer field (uint and nint both legal)
-	sBool                // boolean
-	sBytes               // byte string (possibly wrapped in a tag on the wire)
-	sText                // text string
-	sFixed               // fixed-arity array (struct encoded as array)
-	sList                // variable-length array of Elem
-	sMap                 // map (keys/values of Elem kinds; only type swaps of the whole map)
-	sPoint               // chain point: [] or [slot, hash]
-	sTagAny              // a CBOR tag is required, content opaque
-	sArrayOpaque         // must be an array; content is a tagged sum not described here
-	sOpaque              // anything goes (any / RawMessage / []any)
+	sUint        sKind = iota // unsigned integer field
+	sInt                      // signed integer field (uint and nint both legal)
+	sBool                     // boolean
+	sBytes                    // byte string (possibly wrapped in a tag on the wire)
+	sText                     // text string
+	sFixed                    // fixed-arity array (struct encoded as array)
+	sList                     // variable-length array of Elem
+	sMap                      // map (keys/values of Elem kinds; only type swaps of the whole map)
+	sPoint                    // chain point: [] or [slot, hash]
+	sTagAny                   // a CBOR tag is required, content opaque
+	sArrayOpaque              // must be an array; content is a tagged sum not described here
+	sOpaque                   // anything goes (any / RawMessage / []any)
 )
 
 type schema struct {
@@ -288,14 +288,14 @@ func structFields(t reflect.Type) ([]reflect.StructField, bool) {
 // ---- edit sites ---------------------------------------------------------------
 
 type shapeEdit struct {
-	Node   string // name of the edited schema node
-	Path   string // schema path with list indices replaced by *
-	Edit   string // drop-last | append | swap:<from>-><to> | point:<form> | null
-	Custom string // decoder responsible for the edited node
-	GoType string
+	Node     string // name of the edited schema node
+	Path     string // schema path with list indices replaced by *
+	Edit     string // drop-last | append | swap:<from>-><to> | point:<form> | null
+	Custom   string // decoder responsible for the edited node
+	GoType   string
 	pointLen int // for point edits: length of the edited list; -1 otherwise
-	apply  func()
-	undo   func()
+	apply    func()
+	undo     func()
 }
 
 // FindingKey names the class of input that was wrongly accepted. Two classes
